@@ -17,6 +17,8 @@ import (
 	"fmt"
 	"math"
 	"math/big"
+	"os"
+	"path/filepath"
 	"sort"
 	"strings"
 
@@ -105,6 +107,14 @@ type sim struct {
 	alive    bool
 	// set by tours that close the world themselves (the case is already registered)
 	closedTerm string
+	// C05: views before/after every operation, indexed by the hop range the operation produced
+	opViews []opView
+	crash   bool
+}
+
+type opView struct {
+	from, to  int
+	pre, post server.VerifSnap
 }
 
 func newSim(res *core.Result, r *core.RNG, name string, now0 uint32, http bool) (*sim, error) {
@@ -907,6 +917,114 @@ type profile struct {
 	authOtherKey, authBanned, regAgain, impact, clock, tick, stats, restart, syncq int
 }
 
+// stepCrash runs one step while recording the views around it (C05).
+func (s *sim) stepCrash(p profile) {
+	if !s.alive || s.w.S == nil {
+		return
+	}
+	pre := s.w.S.VerifSnapshot()
+	from := len(s.w.Hops)
+	s.step(p)
+	if s.alive && s.w.S != nil {
+		s.opViews = append(s.opViews, opView{from, len(s.w.Hops), pre, s.w.S.VerifSnapshot()})
+	}
+}
+
+func stripForView(sn server.VerifSnap) string {
+	sn.History = nil
+	return viewJSON(sn, false)
+}
+
+// recoverCrashImages: start a real server on every captured crash image and check the C05 oracle.
+func (s *sim) recoverCrashImages(first server.VerifSnap) {
+	w := s.w
+	imgs := w.Crashes
+	w.Crashes = nil
+	// If the source creates/truncates-then-writes a file outside the expected set, the "present but
+	// empty" images of the key files are legitimate crash images: synthesize them from real images.
+	repo := os.Getenv("VERIF_REPO")
+	if repo == "" {
+		repo = "/repo"
+	}
+	if _, bad, err := unexpectedWriteSites(repo); err == nil && len(bad) > 0 && len(imgs) > 0 {
+		s.res.Count("crash.synthesized-empty-file")
+		base := imgs[len(imgs)-1]
+		for i, f := range []string{"server.keys", "gcaPubKey.dat"} {
+			// only the files an unexpected site can plausibly be writing
+			rel := false
+			for _, b := range bad {
+				fn := strings.ToLower(b)
+				switch {
+				case strings.Contains(fn, "gcakey") || strings.Contains(fn, "gcapubkey") || strings.Contains(fn, "registergca"):
+					rel = rel || f == "gcaPubKey.dat"
+				case strings.Contains(fn, "serverkeys"):
+					rel = rel || f == "server.keys"
+				default:
+					rel = true
+				}
+			}
+			if !rel {
+				continue
+			}
+			d := fmt.Sprintf("%s-empty-%d", base.Dir, i)
+			if srv.CopyDir(base.Dir, d) != nil {
+				continue
+			}
+			os.WriteFile(filepath.Join(d, f), nil, 0644)
+			started, rsn, err, pan := w.RecoverImage(srv.CrashImage{Dir: d, Now: base.Now, OpSeq: base.OpSeq})
+			if pan != "" || !started {
+				s.fail(fmt.Sprintf("the source creates or truncates a file and writes it in a second step (%v); with %s present but empty start-up fails: %v %s", bad, f, err, pan), "c05-empty-file:"+f)
+			} else if f == "gcaPubKey.dat" && rsn.GCAAvailable && rsn.GCAKey == (glow.PublicKey{}) {
+				s.fail(fmt.Sprintf("the source creates or truncates a file and writes it in a second step (%v); with gcaPubKey.dat present but empty the server believes a GCA with the all-zero key is registered", bad), "c05-empty-file:"+f)
+			}
+		}
+	}
+	for _, ci := range imgs {
+		started, got, err, pan := w.RecoverImage(ci)
+		s.res.Count("crash.image")
+		if pan != "" {
+			s.fail("start-up on a crash image panics: "+pan, "c05-start-panics")
+			continue
+		}
+		if !started {
+			s.fail(fmt.Sprintf("start-up on a crash image fails: %v", err), "c05-start-fails")
+			continue
+		}
+		// candidates: the view before and after the operation during which the image was taken
+		cands := []server.VerifSnap{first}
+		for _, ov := range s.opViews {
+			if ci.OpSeq >= ov.from && ci.OpSeq <= ov.to {
+				cands = []server.VerifSnap{ov.pre, ov.post}
+				break
+			}
+		}
+		ok := false
+		for _, c := range cands {
+			exp := c
+			for int64(ci.Now)-int64(exp.Offset) >= 4000 {
+				exp = rotateView(exp)
+			}
+			if stripForView(exp) == stripForView(got) {
+				okh := true
+				for i := range c.History {
+					if i >= len(got.History) || srv.CoqStats(c.History[i]) != srv.CoqStats(got.History[i]) {
+						okh = false
+					}
+				}
+				if okh {
+					ok = true
+					break
+				}
+			}
+		}
+		if ok {
+			s.res.Count("crash.recovered")
+		} else {
+			s.fail("the state recovered from a crash image is neither the state before nor the state after the interrupted operation", "c05-partial-state")
+		}
+	}
+}
+
 func (s *sim) step(p profile) {
 	tot := p.report + p.resigned + p.replay + p.hostile + p.authNew + p.authDup + p.authBad + p.authConflict + p.authOtherKey + p.authBanned + p.regAgain + p.impact + p.clock + p.tick + p.stats + p.restart + p.syncq
 	x := s.r.Intn(tot)
@@ -968,6 +1086,21 @@ func (s *sim) step(p profile) {
 
 // finish records the history and closes the world (CheckInvariants runs inside Close).
 func (s *sim) finish(items *[]string) {
+	if s.crash && s.closedTerm == "" && s.w.Failed == "" {
+		var first server.VerifSnap
+		if len(s.opViews) > 0 {
+			first = s.opViews[0].pre
+		}
+		if s.alive && s.w.S != nil {
+			s.w.SnapHop()
+		}
+		if p := s.w.CloseServer(); p != "" {
+			s.fail("server consistency check (CheckInvariants) panics at shutdown: "+p, "checkinvariants-panic")
+		}
+		s.recoverCrashImages(first)
+		finishWorld(s.res, s.w, items)
+		return
+	}
 	if s.closedTerm != "" {
 		*items = append(*items, s.closedTerm)
 		s.w.Close()
